@@ -129,6 +129,9 @@ def run(case, obs):
         obs.inconc("spec above oracle bound")
         return
     S = ocp.solution_set(spec)
+    # zero-duration tasks in no_overlap: either convention is accepted, so a returned assignment is judged against
+    # the lenient solution set and an INFEASIBLE answer against the strict one
+    S_strict = ocp.solution_set(spec, lenient=False) if ocp.has_zero_duration_no_overlap(spec) else S
     named = [i for i, v in enumerate(spec["vars"]) if v[0] is not None]
     total = 1
     for i in named:
@@ -194,8 +197,8 @@ def run(case, obs):
                         obs.violate("cp.solution-for-unsatisfiable-model", f"{res.solution} cfg={cfg}")
                 elif st == "INFEASIBLE":
                     obs.event("cp.infeasible-checked")
-                    if S:
-                        obs.violate("cp.infeasible-but-satisfiable", f"INFEASIBLE although e.g. {sorted(S)[0]} over "
+                    if S_strict:
+                        obs.violate("cp.infeasible-but-satisfiable", f"INFEASIBLE although e.g. {sorted(S_strict)[0]} over "
                                     f"{[spec['vars'][i][0] for i in named]} satisfies everything; cfg={cfg}")
                 elif st == "MAX_ITER":
                     obs.event("cp.limit-status")
